@@ -1095,29 +1095,29 @@ func RunSliceExpr(ctx *Task, expr *ast.SliceExpr) (any, ast.DType, *errchain.PlE
 	case ast.String:
 		str := obj.(string)
 		if stepInt > 0 {
-			result := ""
+			result := []byte{}
 			if startInt < 0 {
 				startInt = 0
 			}
 			for i := startInt; i < endInt && i < length; i += stepInt {
-				result += string(str[i])
+				result = append(result, str[i])
 				if stepInt >= length { // the next index is out of range; i += stepInt could overflow
 					break
 				}
 			}
-			return result, ast.String, nil
+			return string(result), ast.String, nil
 		} else {
-			result := ""
+			result := []byte{}
 			if startInt > length-1 {
 				startInt = length - 1
 			}
 			for i := startInt; i > endInt && i >= 0; i += stepInt {
-				result += string(str[i])
+				result = append(result, str[i])
 				if stepInt <= -length { // the next index is out of range; i += stepInt could overflow
 					break
 				}
 			}
-			return result, ast.String, nil
+			return string(result), ast.String, nil
 		}
 	default:
 		list := obj.([]any)
